@@ -52,6 +52,15 @@ pub const KNOWN_FORMATS: &[&str] = &[CURRENT_FORMAT];
 
 mod glob;
 
+/// Whether the text is a machine-readable copyright file: its header, the first paragraph
+/// (comment and blank lines before it aside), carries a `Format` field.
+pub(crate) fn is_machine_readable(s: &str) -> bool {
+    s.lines()
+        .skip_while(|l| l.is_empty() || l.starts_with('#'))
+        .take_while(|l| !l.is_empty())
+        .any(|l| l.starts_with("Format:"))
+}
+
 /// A license, which can be just a name, a text or a named license.
 #[derive(Clone, PartialEq, Eq, Debug)]
 pub enum License {
